@@ -6,7 +6,7 @@ import ast
 from sa.engine.facts import Bad, F
 from sa.engine.pattern import u, dump
 from sa.engine.source import norm
-from .common import A, MEM, checkpoint_typestate, queue_ends, waiter_guard
+from .common import guarded_take, A, MEM, checkpoint_typestate, queue_ends, waiter_guard
 
 EXPLANATION = ("Memory object streams: exactly-once placement in send_nowait, exactly-once take in receive_nowait, bounded buffer appends, "
                "FIFO queue ends of buffer/waiting_senders/waiting_receivers, register/deregister pairing of blocked send/receive, "
@@ -131,7 +131,7 @@ def check(ctx):
         ctx.ob("R12-d", recv_nowait, "what is returned is the head of the buffer", ok,
                detail="" if ok else f"`{norm(r)}` does not return buffer.popleft()", node=r, by=("return buffer.popleft()",))
     for st, _ in ctx.sites(recv_nowait, f"{BUF}.popleft()"):
-        ctx.require_at("R12-d", recv_nowait, st, [[BUF]], instance="pop only from a non-empty buffer")
+        guarded_take(ctx, "R12-d", recv_nowait, st, BUF, "pop only from a non-empty buffer")
 
     # ---- R12-e FIFO ------------------------------------------------------------------------------------------
     mem_funcs = [f for f in ctx.repo.funcs_in(MEM)]
@@ -144,13 +144,13 @@ def check(ctx):
     from .common import writer_table
     S, R = "MemoryObjectSendStream", "MemoryObjectReceiveStream"
     writer_table(ctx, "R12-e", "buffer", {f"{S}.send_nowait": {"call:append"}, f"{R}.receive_nowait": {"call:append", "call:popleft"}}, floor=3, modules=[MEM])
-    writer_table(ctx, "R12-e", "waiting_receivers", {f"{S}.send_nowait": {"call:popitem"}, f"{S}.close": {"call:clear"},
+    writer_table(ctx, "R12-e", "waiting_receivers", {f"{S}.send_nowait": {"call:popitem"}, f"{S}.close": {"call:clear", "call:popitem"},
                                                      f"{R}.receive": {"subscript", "call:pop"}}, floor=4, modules=[MEM])
     writer_table(ctx, "R12-e", "waiting_senders", {f"{R}.receive_nowait": {"call:popitem"}, f"{R}.close": {"call:clear"},
                                                    f"{S}.send": {"subscript", "call:pop"}}, floor=4, modules=[MEM])
     for cls_, q, ctr in ((S, "waiting_receivers", "open_send_channels"), (R, "waiting_senders", "open_receive_channels")):
         cl = ctx.fn(f"{cls_}.close", MEM)
-        for st_, _ in ctx.sites(cl, f"self._state.{q}.clear()"):
+        for st_, _ in ctx.sites(cl, f"self._state.{q}.clear()") + ctx.sites(cl, f"self._state.{q}.popitem($*A)"):
             ctx.require_at("R12-e", cl, st_, [[f"0 == self._state.{ctr}"], [f"not self._state.{ctr}"]],
                            instance=f"{q} is emptied only by the close of the last handle of the other side's peers", what="clear()")
 
